@@ -48,7 +48,33 @@ def make_world(tag, seq, opt):
         b = w.add(call(kind, 2, 2, i))
         pairs.append((a, b, kind))
 
+    # "A;B on one Config compared with B alone": the calls of each entry point once more, WITHOUT the other
+    # entry points, through a Config with the same options in a directory of its own.  (With Ext set the
+    # two standalone variants share one location pattern <name>_%d.snap<Ext>, hence one ordinal sequence:
+    # they are kept together.)
+    groups = [[k] for k in KINDS if k in seq] if ext is None else \
+             [[k] for k in ('snap', 'json', 'yaml') if k in seq] + ([[k for k in ('sasnap', 'sajson') if k in seq]] if set(seq) & {'sasnap', 'sajson'} else [])
+    alone = []
+    if len(set(seq)) > 1:
+        for gi, grp in enumerate(groups):
+            d = 'only_' + '_'.join(grp)
+            w.add(cfg_line(10 + gi, d, fn, ext))
+            w.add('begin %d %s' % (10 + gi, hx(b'TestCfg')))
+            for i, kind in enumerate(seq):
+                if kind in grp:
+                    alone.append((pairs[i][0], w.add(call(kind, 10 + gi, 10 + gi, i)), kind, d.encode()))
+            w.add('end %d' % (10 + gi))
+
     def oracle(line, raw, ww):
+        for a, b, kind, d in alone:
+            la, lb = Line(ww.impl[a]), Line(ww.impl[b])
+            if [k for k, _ in la.events] != [k for k, _ in lb.events]:
+                return '%s after calls of other entry points through the same Config behaved differently (%r) than the same call without them (%r)' % (
+                    kind, [(k, v[:60]) for k, v in la.events[:1]], [(k, v[:60]) for k, v in lb.events[:1]])
+            wa = [p.split(b'/shared/')[-1] for p in la.writes]
+            wb = [p.split(b'/' + d + b'/')[-1] for p in lb.writes]
+            if wa != wb:
+                return '%s after calls of other entry points through the same Config wrote %r, the same call without them wrote %r' % (kind, wa, wb)
         for a, b, kind in pairs:
             la, lb = Line(ww.impl[a]), Line(ww.impl[b])
             if [k for k, _ in la.events] != [k for k, _ in lb.events]:
